@@ -300,6 +300,8 @@ pub fn bfs_file(
     let ops = alphabet(&model, &probes);
     let levels = spec.cfg.index_levels as u64;
     let load_bound = 2 * (levels + 2);
+    // each block load reads an 8-byte length and the stored block
+    let byte_bound = load_bound * (8 + crate::files::max_stored_block(bytes));
 
     // map block content hash -> true offset (for the stale statistics)
     let mut true_off: HashMap<u64, u64> = HashMap::new();
@@ -418,6 +420,14 @@ pub fn bfs_file(
                     bad = Some(format!("{} on a clone changed the original cursor", op.brief()));
                     kind = "clone";
                 }
+            }
+            if bad.is_none() && opt.check_loads && stats.read_bytes.get() > byte_bound {
+                bad = Some(format!(
+                    "{} read {} bytes, more than 2*(levels+2) = {load_bound} blocks of the largest stored size can account for ({byte_bound})",
+                    op.brief(),
+                    stats.read_bytes.get()
+                ));
+                kind = "bytes";
             }
             if bad.is_none() && opt.check_loads && loads > load_bound {
                 bad = Some(format!(
